@@ -27,6 +27,80 @@ use rv_common::*;
 use serde_json::{json, Value};
 use std::time::Duration;
 
+/// The 8 small-order points of Curve25519 in Edwards form (canonical encodings first: order 1, 2,
+/// 4, 4, 8, 8, 8, 8), followed by their non-canonical encodings (x = 0 with the sign bit set,
+/// y = p and y = p + 1). No private key exists for any of them.
+pub const SMALL_ORDER: [&str; 14] = [
+    "0100000000000000000000000000000000000000000000000000000000000000",
+    "ecffffffffffffffffffffffffffffffffffffffffffffffffffffffffffff7f",
+    "0000000000000000000000000000000000000000000000000000000000000000",
+    "0000000000000000000000000000000000000000000000000000000000000080",
+    "26e8958fc2b227b045c3f489f2ef98f0d5dfac05d3c63339b13802886d53fc05",
+    "26e8958fc2b227b045c3f489f2ef98f0d5dfac05d3c63339b13802886d53fc85",
+    "c7176a703d4dd84fba3c0b760d10670f2a2053fa2c39ccc64ec7fd7792ac037a",
+    "c7176a703d4dd84fba3c0b760d10670f2a2053fa2c39ccc64ec7fd7792ac03fa",
+    "0100000000000000000000000000000000000000000000000000000000000080",
+    "ecffffffffffffffffffffffffffffffffffffffffffffffffffffffffffffff",
+    "eeffffffffffffffffffffffffffffffffffffffffffffffffffffffffffff7f",
+    "eeffffffffffffffffffffffffffffffffffffffffffffffffffffffffffffff",
+    "edffffffffffffffffffffffffffffffffffffffffffffffffffffffffffff7f",
+    "edffffffffffffffffffffffffffffffffffffffffffffffffffffffffffffff",
+];
+/// group order L, little endian
+const ED_L: &str = "edd3f55c1a631258d69cf7a2def9de1400000000000000000000000000000010";
+
+fn b32(h: &str) -> [u8; 32] {
+    unhex(h).try_into().unwrap()
+}
+
+/// A "signature" nobody signed: small-order public key, small-order R, degenerate S
+#[derive(Clone, Debug)]
+pub struct SmallOrder {
+    pub pk: usize,
+    pub r: usize,
+    pub s_kind: u8, // 0: S = 0, 1: S = 1, 2: S = L, 3: small random
+    pub s: [u8; 32],
+}
+
+impl SmallOrder {
+    pub fn draw(rng: &mut Rng) -> SmallOrder {
+        // half "aimed" (an encoding of the neutral element as key, R = neutral, S = 0 - and
+        // key = R with S = 0), half free draws from the sets
+        let (pk, r, s_kind) = match rng.below(6) {
+            0 => (0, 0, 0),
+            1 => (*rng.pick(&[0usize, 8, 10, 11]), 0, 0),
+            2 => {
+                let k = rng.usize_below(SMALL_ORDER.len());
+                (k, k, 0)
+            }
+            _ => (rng.usize_below(SMALL_ORDER.len()), rng.usize_below(SMALL_ORDER.len()), rng.below(4) as u8),
+        };
+        let mut s = [0u8; 32];
+        match s_kind {
+            0 => {}
+            1 => s[0] = 1,
+            2 => s = b32(ED_L),
+            _ => {
+                s[0] = rng.below(256) as u8;
+                s[1] = rng.below(256) as u8;
+            }
+        }
+        SmallOrder { pk, r, s_kind, s }
+    }
+    pub fn public_key(&self) -> Ed25519PublicKey {
+        Ed25519PublicKey(b32(SMALL_ORDER[self.pk]))
+    }
+    pub fn signature(&self) -> Ed25519Signature {
+        let mut b = [0u8; 64];
+        b[..32].copy_from_slice(&b32(SMALL_ORDER[self.r]));
+        b[32..].copy_from_slice(&self.s);
+        Ed25519Signature(b)
+    }
+    fn tag(&self) -> String {
+        format!("pk{}:r{}:s{}", self.pk, self.r, self.s_kind)
+    }
+}
+
 #[derive(Clone, Debug)]
 pub enum Slot {
     Honest(KeyId),
@@ -37,6 +111,8 @@ pub enum Slot {
     EdWrongKey { signer: usize, claimed: usize },
     /// honest signature with one byte of (public key ‖ signature) xored
     Corrupt(KeyId, usize, u8),
+    /// Ed25519 slot with a small-order public key and a small-order R
+    EdSmallOrder(SmallOrder),
 }
 
 impl Slot {
@@ -46,6 +122,7 @@ impl Slot {
             Slot::WrongHash(k, w) => format!("wronghash{w}:{}", k.tag()),
             Slot::EdWrongKey { signer, claimed } => format!("edwrongkey:e{signer}->e{claimed}"),
             Slot::Corrupt(k, i, x) => format!("corrupt:{}@{i}^{x:02x}", k.tag()),
+            Slot::EdSmallOrder(so) => format!("edsmallorder:{}", so.tag()),
         }
     }
     fn class(&self) -> &'static str {
@@ -54,6 +131,7 @@ impl Slot {
             Slot::WrongHash(k, _) => if k.curve == Curve::Secp { "secp-wrong-hash" } else { "ed-wrong-hash" },
             Slot::EdWrongKey { .. } => "ed-wrong-key",
             Slot::Corrupt(k, _, _) => if k.curve == Curve::Secp { "secp-corrupt" } else { "ed-corrupt" },
+            Slot::EdSmallOrder(_) => "ed-small-order-key",
         }
     }
     fn is_honest(&self) -> bool {
@@ -81,6 +159,8 @@ pub enum NotarySlot {
     /// a key of the other curve signs (signature curve != header key curve)
     CurveMismatch(KeyId),
     Corrupt(usize, u8),
+    /// the header's notary key is a small-order Ed25519 point, the signature (small-order R, S)
+    EdSmallOrder(SmallOrder),
 }
 
 fn wrong_hash(rng: &mut Rng, right: &Hash, other: Option<Hash>, kind: u8) -> Hash {
@@ -100,6 +180,7 @@ fn make_sig(rng: &mut Rng, slot: &Slot, right: &Hash, other: Option<Hash>) -> In
         Slot::Honest(k) => k.sign_with_pk(right),
         Slot::WrongHash(k, w) => k.sign_with_pk(&wrong_hash(rng, right, other, *w)),
         Slot::EdWrongKey { signer, claimed } => SignatureWithPublicKeyV1::Ed25519 { public_key: keys().ed[*claimed].1, signature: keys().ed[*signer].0.sign(right) },
+        Slot::EdSmallOrder(so) => SignatureWithPublicKeyV1::Ed25519 { public_key: so.public_key(), signature: so.signature() },
         Slot::Corrupt(k, i, x) => match k.sign_with_pk(right) {
             SignatureWithPublicKeyV1::Secp256k1 { mut signature } => {
                 signature.0[*i % 65] ^= *x;
@@ -125,6 +206,7 @@ fn make_notary_sig(rng: &mut Rng, slot: &NotarySlot, notary: KeyId, signed_hash:
         NotarySlot::Honest => (notary.sign_plain(signed_hash), true),
         NotarySlot::WrongKey(k) | NotarySlot::CurveMismatch(k) => (k.sign_plain(signed_hash), false),
         NotarySlot::WrongHash(w) => (notary.sign_plain(&wrong_hash(rng, signed_hash, Some(*intent_hash), *w)), false),
+        NotarySlot::EdSmallOrder(so) => (SignatureV1::Ed25519(so.signature()), false),
         NotarySlot::Corrupt(i, x) => match notary.sign_plain(signed_hash) {
             SignatureV1::Secp256k1(mut s) => {
                 let i = *i % 65;
@@ -149,6 +231,11 @@ fn rand_slots(rng: &mut Rng, clean: bool) -> Vec<Slot> {
     };
     let ks = distinct_keys(rng, n);
     let mut slots: Vec<Slot> = ks.into_iter().map(Slot::Honest).collect();
+    if !clean && rng.chance(1, 8) {
+        // a keyless "signer" (also as the only signature of the intent)
+        let at = rng.usize_below(slots.len() + 1);
+        slots.insert(at, Slot::EdSmallOrder(SmallOrder::draw(rng)));
+    }
     if clean || slots.is_empty() {
         return slots;
     }
@@ -228,6 +315,8 @@ pub struct Truth {
     pub sigs: Vec<Vec<IntentSignatureV1>>,
     pub notary_sig: Option<SignatureV1>,
     pub v1_allow_dup: bool,
+    /// header changed after signing (signatures kept)
+    pub altered: bool,
 }
 
 impl Truth {
@@ -244,7 +333,10 @@ impl Truth {
         let mut r = vec![];
         if let Some((_, slot, benign, _)) = &self.notary {
             if !matches!(slot, NotarySlot::Honest) && !*benign {
-                r.push(format!("notary-{}", variant_name(slot)));
+                r.push(match slot {
+                    NotarySlot::EdSmallOrder(_) => "notary-ed-small-order-key".to_string(),
+                    _ => format!("notary-{}", variant_name(slot)),
+                });
             }
         }
         for s in self.slots.iter().flatten() {
@@ -255,6 +347,9 @@ impl Truth {
         r.sort();
         r.dedup();
         r
+    }
+    fn has_small_order(&self) -> bool {
+        self.slots.iter().flatten().any(|s| matches!(s, Slot::EdSmallOrder(_))) || matches!(&self.notary, Some((_, NotarySlot::EdSmallOrder(_), _, _)))
     }
     fn clean(&self) -> bool {
         self.slots.iter().flatten().all(|s| s.is_honest()) && self.notary.as_ref().map(|(_, s, _, _)| matches!(s, NotarySlot::Honest)).unwrap_or(true) && !self.has_duplicates()
@@ -287,6 +382,10 @@ pub fn build_case(rng: &mut Rng, clean: bool, small: bool) -> Truth {
     match rng.below(10) {
         0..=4 => {
             let mut intent = rand_intent_v1(rng, notary, max_instr);
+            let so_notary = if !clean && rng.chance(1, 10) { Some(SmallOrder::draw(rng)) } else { None };
+            if let Some(so) = &so_notary {
+                intent.header.notary_public_key = PublicKey::Ed25519(so.public_key());
+            }
             if small {
                 intent.blobs = BlobsV1 { blobs: vec![] };
                 intent.message = MessageV1::None;
@@ -306,15 +405,22 @@ pub fn build_case(rng: &mut Rng, clean: bool, small: bool) -> Truth {
             let sigs: Vec<IntentSignatureV1> = slots.iter().map(|s| make_sig(rng, s, &ih, None)).collect();
             let signed_intent = SignedIntentV1 { intent, intent_signatures: IntentSignaturesV1 { signatures: sigs.clone() } };
             let (_, sh) = refhash::signed_intent_v1(&signed_intent);
-            let nslot = rand_notary_slot(rng, notary, clean);
+            let nslot = match so_notary {
+                Some(so) => NotarySlot::EdSmallOrder(so),
+                None => rand_notary_slot(rng, notary, clean),
+            };
             let (nsig, benign) = make_notary_sig(rng, &nslot, notary, &sh, &ih);
             let tx = NotarizedTransactionV1 { signed_intent, notary_signature: NotarySignatureV1(nsig) };
-            Truth { kind: "v1", raw: tx.to_raw().unwrap().to_vec(), slots: vec![slots], notary: Some((notary, nslot, benign, is_sig)), intent_hashes: vec![ih], signed_hash: Some(sh), sigs: vec![sigs], notary_sig: Some(nsig), v1_allow_dup: rng.bool() }
+            Truth { kind: "v1", raw: tx.to_raw().unwrap().to_vec(), slots: vec![slots], notary: Some((notary, nslot, benign, is_sig)), intent_hashes: vec![ih], signed_hash: Some(sh), sigs: vec![sigs], notary_sig: Some(nsig), v1_allow_dup: rng.bool(), altered: false }
         }
         k => {
             let partial = k == 9;
             let n_sub = if small { rng.usize_below(2) } else { rng.usize_below(4) };
-            let ti = rand_tx_intent_v2(rng, notary, n_sub, if partial { 2 } else { 3 }, max_instr);
+            let mut ti = rand_tx_intent_v2(rng, notary, n_sub, if partial { 2 } else { 3 }, max_instr);
+            let so_notary = if !clean && !partial && rng.chance(1, 10) { Some(SmallOrder::draw(rng)) } else { None };
+            if let Some(so) = &so_notary {
+                ti.transaction_header.notary_public_key = PublicKey::Ed25519(so.public_key());
+            }
             let (root_hash, sub_hashes, partial_tx) = if partial {
                 // re-use the generated tree: the root core becomes a root subintent (it needs a final YIELD_TO_PARENT)
                 let mut core = ti.root_intent_core.clone();
@@ -357,16 +463,93 @@ pub fn build_case(rng: &mut Rng, clean: bool, small: bool) -> Truth {
             intent_hashes.extend(sub_hashes.iter().copied());
             if let Some(p) = partial_tx {
                 let tx = SignedPartialTransactionV2 { partial_transaction: p, root_subintent_signatures: IntentSignaturesV2 { signatures: root_sigs }, non_root_subintent_signatures: NonRootSubintentSignaturesV2 { by_subintent: batches } };
-                Truth { kind: "partial", raw: tx.to_raw().unwrap().to_vec(), slots: all_slots, notary: None, intent_hashes, signed_hash: None, sigs: all_sigs, notary_sig: None, v1_allow_dup: true }
+                Truth { kind: "partial", raw: tx.to_raw().unwrap().to_vec(), slots: all_slots, notary: None, intent_hashes, signed_hash: None, sigs: all_sigs, notary_sig: None, v1_allow_dup: true, altered: false }
             } else {
                 let signed = SignedTransactionIntentV2 { transaction_intent: ti, transaction_intent_signatures: IntentSignaturesV2 { signatures: root_sigs }, non_root_subintent_signatures: NonRootSubintentSignaturesV2 { by_subintent: batches } };
                 let (_, sh, _) = refhash::signed_tx_intent_v2(&signed);
-                let nslot = rand_notary_slot(rng, notary, clean);
+                let nslot = match so_notary {
+                    Some(so) => NotarySlot::EdSmallOrder(so),
+                    None => rand_notary_slot(rng, notary, clean),
+                };
                 let (nsig, benign) = make_notary_sig(rng, &nslot, notary, &sh, &root_hash);
                 let tx = NotarizedTransactionV2 { signed_transaction_intent: signed, notary_signature: NotarySignatureV2(nsig) };
-                Truth { kind: "v2", raw: tx.to_raw().unwrap().to_vec(), slots: all_slots, notary: Some((notary, nslot, benign, is_sig)), intent_hashes, signed_hash: Some(sh), sigs: all_sigs, notary_sig: Some(nsig), v1_allow_dup: true }
+                Truth { kind: "v2", raw: tx.to_raw().unwrap().to_vec(), slots: all_slots, notary: Some((notary, nslot, benign, is_sig)), intent_hashes, signed_hash: Some(sh), sigs: all_sigs, notary_sig: Some(nsig), v1_allow_dup: true, altered: false }
             }
         }
+    }
+}
+
+/// The mutation angle of the small-order forgery: a transaction whose notary key is a small-order
+/// point (root signatures: none / only another small-order slot / honest ones; subintents signed
+/// honestly), and the same transaction with the nonce / intent discriminator or the tip altered
+/// while every signature is kept. Neither has an honest notary signature.
+pub fn small_order_notary_pair(rng: &mut Rng) -> (Truth, Truth) {
+    let dummy = KeyId::random(rng);
+    let so = SmallOrder::draw(rng);
+    let root_slots: Vec<Slot> = match rng.below(4) {
+        0 | 1 => vec![],
+        2 => vec![Slot::EdSmallOrder(SmallOrder::draw(rng))],
+        _ => {
+            let n = 1 + rng.usize_below(2);
+            distinct_keys(rng, n).into_iter().map(Slot::Honest).collect()
+        }
+    };
+    let nslot = NotarySlot::EdSmallOrder(so.clone());
+    let nsig = SignatureV1::Ed25519(so.signature());
+    if rng.bool() {
+        let mut intent = rand_intent_v1(rng, dummy, 4);
+        intent.header.notary_public_key = PublicKey::Ed25519(so.public_key());
+        let is_sig = intent.header.notary_is_signatory;
+        let ih = refhash::intent_v1(&intent);
+        let sigs: Vec<IntentSignatureV1> = root_slots.iter().map(|s| make_sig(rng, s, &ih, None)).collect();
+        let allow = rng.bool();
+        let mk = |intent: IntentV1, altered: bool| {
+            let ih = refhash::intent_v1(&intent);
+            let signed_intent = SignedIntentV1 { intent, intent_signatures: IntentSignaturesV1 { signatures: sigs.clone() } };
+            let (_, sh) = refhash::signed_intent_v1(&signed_intent);
+            let tx = NotarizedTransactionV1 { signed_intent, notary_signature: NotarySignatureV1(nsig) };
+            Truth { kind: "v1", raw: tx.to_raw().unwrap().to_vec(), slots: vec![root_slots.clone()], notary: Some((dummy, nslot.clone(), false, is_sig)), intent_hashes: vec![ih], signed_hash: Some(sh), sigs: vec![sigs.clone()], notary_sig: Some(nsig), v1_allow_dup: allow, altered }
+        };
+        let mut other = intent.clone();
+        if rng.chance(2, 3) {
+            other.header.nonce = other.header.nonce.wrapping_add(1 + rng.below(1000) as u32);
+        } else {
+            other.header.tip_percentage = other.header.tip_percentage.wrapping_add(1 + rng.below(50) as u16);
+        }
+        (mk(intent, false), mk(other, true))
+    } else {
+        let n_sub = rng.usize_below(3);
+        let mut ti = rand_tx_intent_v2(rng, dummy, n_sub, 3, 4);
+        ti.transaction_header.notary_public_key = PublicKey::Ed25519(so.public_key());
+        let is_sig = ti.transaction_header.notary_is_signatory;
+        let (root_hash, sub_hashes) = refhash::tx_intent_v2(&ti);
+        let root_sigs: Vec<IntentSignatureV1> = root_slots.iter().map(|s| make_sig(rng, s, &root_hash, None)).collect();
+        let mut all_slots = vec![root_slots.clone()];
+        let mut all_sigs = vec![root_sigs.clone()];
+        let mut batches = vec![];
+        for sh in &sub_hashes {
+            let n = rng.usize_below(3);
+            let slots: Vec<Slot> = distinct_keys(rng, n).into_iter().map(Slot::Honest).collect();
+            let sigs: Vec<IntentSignatureV1> = slots.iter().map(|s| make_sig(rng, s, sh, None)).collect();
+            batches.push(IntentSignaturesV2 { signatures: sigs.clone() });
+            all_slots.push(slots);
+            all_sigs.push(sigs);
+        }
+        let mk = |ti: TransactionIntentV2, altered: bool| {
+            let signed = SignedTransactionIntentV2 { transaction_intent: ti, transaction_intent_signatures: IntentSignaturesV2 { signatures: root_sigs.clone() }, non_root_subintent_signatures: NonRootSubintentSignaturesV2 { by_subintent: batches.clone() } };
+            let (rh, sh, subs) = refhash::signed_tx_intent_v2(&signed);
+            let mut intent_hashes = vec![rh];
+            intent_hashes.extend(subs);
+            let tx = NotarizedTransactionV2 { signed_transaction_intent: signed, notary_signature: NotarySignatureV2(nsig) };
+            Truth { kind: "v2", raw: tx.to_raw().unwrap().to_vec(), slots: all_slots.clone(), notary: Some((dummy, nslot.clone(), false, is_sig)), intent_hashes, signed_hash: Some(sh), sigs: all_sigs.clone(), notary_sig: Some(nsig), v1_allow_dup: true, altered }
+        };
+        let mut other = ti.clone();
+        if rng.chance(2, 3) {
+            other.root_intent_core.header.intent_discriminator = other.root_intent_core.header.intent_discriminator.wrapping_add(1 + rng.below(1000));
+        } else {
+            other.transaction_header.tip_basis_points = other.transaction_header.tip_basis_points.wrapping_add(1 + rng.below(50) as u32);
+        }
+        (mk(ti, false), mk(other, true))
     }
 }
 
@@ -430,7 +613,13 @@ pub fn check_accept(t: &Truth, a: &Accepted) -> Vec<(String, Value)> {
     let mut v = vec![];
     let must = t.must_reject();
     if !must.is_empty() {
-        v.push((format!("accepted-with-invalid-signature:{}", must[0]), json!({"reasons": must, "case": t.describe()})));
+        let lead = must.iter().find(|m| m.contains("small-order")).unwrap_or(&must[0]);
+        v.push((format!("accepted-with-invalid-signature:{lead}{}", if t.altered { ":header-altered-after-signing" } else { "" }), json!({"reasons": must, "case": t.describe()})));
+        if t.has_small_order() {
+            // nobody holds a key for these slots: the remaining clauses (which speak about
+            // harness keys) do not apply
+            return v;
+        }
     }
     // hashes the signatures are meant to cover
     if a.intent_hash != t.intent_hashes[0] || a.sub_hashes != t.intent_hashes[1..] || (t.signed_hash.is_some() && a.signed_hash != t.signed_hash) {
@@ -508,6 +697,22 @@ fn run_case(shard: &mut Shard, t: &Truth) -> Option<Accepted> {
     }
     let n_sigs: usize = t.slots.iter().map(|s| s.len()).sum();
     shard.max("signatures_in_one_tx", n_sigs as u64);
+    let small_order = t.has_small_order();
+    if small_order {
+        shard.count("small_order_forgeries_attempted");
+        for (w, s) in t.slots.iter().enumerate() {
+            for x in s {
+                if let Slot::EdSmallOrder(so) = x {
+                    shard.seen("small_order_slots", &format!("{}:{}:{}", t.kind, if w == 0 { "root" } else { "subintent" }, so.tag()));
+                    shard.seen("small_order_positions", &format!("{}:{}", t.kind, if w == 0 { "root-intent-signature" } else { "subintent-signature" }));
+                }
+            }
+        }
+        if let Some((_, NotarySlot::EdSmallOrder(so), _, is_sig)) = &t.notary {
+            shard.seen("small_order_slots", &format!("{}:notary:{}", t.kind, so.tag()));
+            shard.seen("small_order_positions", &format!("{}:notary:{}{}", t.kind, if *is_sig { "signatory" } else { "not-signatory" }, if t.altered { ":header-altered" } else { "" }));
+        }
+    }
     match r {
         Ok(a) => {
             shard.count("accepted");
@@ -533,6 +738,13 @@ fn run_case(shard: &mut Shard, t: &Truth) -> Option<Accepted> {
         Err(class) => {
             shard.count("rejected");
             shard.seen("outcomes", &class);
+            if small_order {
+                shard.count("small_order_forgeries_rejected");
+                shard.seen("small_order_rejection_classes", &class);
+                if t.altered {
+                    shard.count("small_order_notary_header_altered_rejected");
+                }
+            }
             shard.nontrivial(&(t.kind, class.as_str(), t.must_reject(), n_sigs));
             if t.clean() {
                 shard.count("clean_rejected");
@@ -619,13 +831,16 @@ pub fn run(args: &Args) -> i32 {
         "accepted ⇒ notary honest (up to the Secp256k1 recovery id), every Ed25519 signature honest, signer keys per intent = honest signers (+ foreign keys recovered from forged Secp256k1 signatures, + notary iff signatory), no duplicates, each signature verifies over the reference hash, executable proofs = signer badges; accepted byte mutant ⇒ intent/subintent/signed-intent hashes and signer sets unchanged",
     )
     .assume("a Secp256k1 intent signature carries no key: it is 'valid' for whatever key it recovers to; such a key is never one of the harness keys unless the harness key really signed that hash")
+    .assume("no private key exists for a small-order Ed25519 point; a slot carrying one was signed by nobody, whatever the verification equation says")
     .assume("the Secp256k1 recovery id is not part of the notary signature being verified (it is only needed for recovery)")
     .floor("accepted", args.tier.pick(20_000, 200_000))
     .floor("rejected_forgeries", args.tier.pick(10_000, 100_000))
+    .floor("small_order_forgeries_rejected", args.tier.pick(20_000, 200_000))
+    .floor("small_order_notary_header_altered_rejected", args.tier.pick(5_000, 50_000))
     .floor("mutants", args.tier.pick(800_000, 10_000_000))
     .floor("fixtures_swept_exhaustively", args.tier.pick(150, 2_000))
     .floor("fixtures_swept_randomly", args.tier.pick(50, 600))
-    .explain("Phase A: V1 / V2 (0-3 subintents) / signed partial transactions with 0-16 signature slots per intent over both curves: honest, wrong hash (random / other intent's hash = swapped signature / bit flip), Ed25519 key-field mismatch, corrupted bytes, duplicate signers, notary as signer, notary forged (wrong key, wrong hash, other curve, corrupted). Phase B: every byte of short clean transactions xored with 8 single-bit masks, 0xff and a random mask; 3000 random byte mutations of long ones.");
+    .explain("Phase A: V1 / V2 (0-3 subintents) / signed partial transactions with 0-16 signature slots per intent over both curves: honest, wrong hash (random / other intent's hash = swapped signature / bit flip), Ed25519 key-field mismatch, corrupted bytes, duplicate signers, notary as signer, notary forged (wrong key, wrong hash, other curve, corrupted); small-order Ed25519 forgeries: public key and R from the 14 encodings of the 8 small-order points, S in {0, 1, L, small}, as intent signature (root, subintent, partial) and as notary key (signatory or not), plus pairs (small-order notary, same transaction with nonce / discriminator / tip altered and all signatures kept). Phase B: every byte of short clean transactions xored with 8 single-bit masks, 0xff and a random mask; 3000 random byte mutations of long ones.");
     if let Some(path) = &args.replay {
         return replay(args, spec, path);
     }
@@ -636,6 +851,12 @@ pub fn run(args: &Args) -> i32 {
         let mut done = 0;
         while done < cap_a && !shard.time_up() {
             done += 1;
+            if rng.chance(1, 12) {
+                let (base, altered) = small_order_notary_pair(rng);
+                run_case(shard, &base);
+                run_case(shard, &altered);
+                continue;
+            }
             let clean = rng.chance(1, 3);
             let t = build_case(rng, clean, false);
             run_case(shard, &t);
